@@ -7,5 +7,5 @@ W=/tmp/mrepo_$$
 git -C /repo worktree add -q $W HEAD || exit 3
 git -C $W apply "$P" || { echo "patch does not apply"; git -C /repo worktree remove --force $W; exit 3; }
 mkdir -p /tmp/mutant_ev_$C; VERIF_EVIDENCE_DIR=/tmp/mutant_ev_$C VERIF_REPLAY_DIR=/tmp/mutant_ev_$C VERIF_REPO=$W VERIF_SEED=$S timeout 1800 ./check $C --tier $T > /tmp/mutant_run_$C.log 2>&1; rc=$?
-git -C /repo worktree remove --force $W; git -C /repo worktree prune
+git -C /repo worktree remove --force $W
 echo "exit=$rc violations=$(grep -c '^VIOLATION' /tmp/mutant_run_$C.log)"; grep "^VIOLATION\|^#" /tmp/mutant_run_$C.log | head -4 | cut -c1-260
